@@ -24,6 +24,12 @@ PID = "C05"
 MODES_FULL = [(0, 0), (1, 0), (1, 1), (1, 2), (1, 3), (1, 8), (1, 127), (1, 128), (1, 255), (2, 0)]
 MODES_SMALL = [(0, 0), (1, 2), (2, 0)]
 
+# pending finding (confirmed on the current tree, patch in DEFECTS.md, not yet applied): keyed by the exact shape
+PENDING = {
+    "binary-later-text": "text of a binary-flagged element that is not the element's first child is written raw instead of base64 "
+                         "(current_tag is reset after the first child); the XML is not well-formed when the octets are not XML characters",
+}
+
 # findings repaired in /repo (3c772f6 D8 tree builder, 0de0008 D9 CDATA split, 32930ca D28/D29 xmlns around literal
 # elements): their shapes are ordinary violations now.  `shapes` is kept for the evidence (how often the
 # generators reach these shapes).
@@ -124,7 +130,11 @@ def name_bytes(nm):
     return nm[5] if nm[0] == "t" else cstr(nm[1])
 
 
-def hypotheses(roots, why):
+def is_binary_elt(n):
+    return n is not None and n.kind == "E" and n.name[0] == "t" and bool(n.name[4] & 1)
+
+
+def hypotheses(roots, why, parent=None):
     """names are XML names, character data consists of XML characters, no element carries an attribute name twice.
     Appends the reasons to `why`; returns True when all hold."""
     ok = True
@@ -147,7 +157,8 @@ def hypotheses(roots, why):
             if b":" in name_bytes(n.name) and n.name[0] == "l":
                 why.append("prefixed-literal"); ok = False
         elif n.kind == "T":
-            if n.text is None or not is_chars(n.text):
+            # the content of a binary-flagged element is arbitrary octets (it is rendered as base64)
+            if n.text is None or (not is_binary_elt(parent) and not is_chars(n.text)):
                 why.append("chars"); ok = False
             if n.children:
                 why.append("children-on-text"); ok = False
@@ -156,7 +167,7 @@ def hypotheses(roots, why):
         elif n.kind == "S":
             if not hypotheses(n.sub[1], why):
                 ok = False
-        if n.kind != "S" and not hypotheses(n.children, why):
+        if n.kind != "S" and not hypotheses(n.children, why, n):
             ok = False
     return ok
 
@@ -173,6 +184,8 @@ def shapes(roots, in_cdata=False, acc=None, parent=None):
             acc.add("literal-root")
         if n.kind == "E" and n.name[0] == "t" and parent is not None and parent.kind == "E" and parent.name[0] == "l":
             acc.add("token-under-literal")
+        if n.kind == "T" and is_binary_elt(parent) and n is not roots[0]:
+            acc.add("binary-later-text")
         if in_cdata and n.kind == "C":
             acc.add("nested-cdata")
         if in_cdata and n.kind == "E":
@@ -226,8 +239,6 @@ def expected(nodes, T, lang, gen_type, keep_ws, in_cdata=False, parent=None):
             if in_cdata:
                 t = norm_text(t)                     # raw inside the section: XML's own end-of-line handling applies in every mode
             elif binary:
-                if not first:
-                    raise Skip("mixed-content-in-binary-element")
                 if len(t) == 0:
                     raise Skip("empty-binary")      # conversion fails (base64 of nothing): the property speaks of successful conversions
                 t = base64.b64encode(t)
@@ -562,7 +573,7 @@ def run(ctx):
     ma, mcr = common.run_lines(driver, mlines)
     model = {i: m for i, m in zip(midx, ma)}
 
-    concrete, corr = [], []
+    concrete, corr, pending_hits = [], [], {}
     shape_count = {}
     kinds, verdicts, skipwhy = {}, {}, {}
     nontrivial = set()
@@ -618,7 +629,10 @@ def run(ctx):
             payload = {"wbxml": c["doc"].hex(), "forced": c["forced"], "mode": [g, ind], "keep_ws": kw, "xml": xml_bytes.decode("utf-8", "replace")[:2000],
                        "oracle": det, "kind": det["kind"], "case_kind": c["kind"]}
             payload["shapes"] = sorted(sh)
-            concrete.append(payload)
+            if "binary-later-text" in sh and det["kind"] in ("not-well-formed", "text", "children", "kind") and not ctx.known("binary-later-text-fixed"):
+                pending_hits.setdefault("binary-later-text", []).append(payload)
+            else:
+                concrete.append(payload)
     for cr in crashes:
         concrete.append({"kind": "crash-or-sanitizer-report", **cr})
 
@@ -665,9 +679,15 @@ def run(ctx):
         "theorem_spec_vs_pyexpat_compared": nspec,
         "theorem_spec_vs_pyexpat_disagreements": len(spec_bad),
         "shapes_reached": shape_count,
+        "pending_findings": {k: len(v) for k, v in pending_hits.items()},
     })
 
     # ---- verdict
+    for k, hits in pending_hits.items():
+        print("KNOWN-FINDING: property=%s %s [pending, see props/C05/DEFECTS.md; first input wbxml=%s forced=%d mode=%s keep_ws=%d]"
+              % (PID, PENDING[k], hits[0]["wbxml"], hits[0]["forced"], hits[0]["mode"], hits[0]["keep_ws"]), flush=True)
+        if k not in ctx.known_hits:
+            ctx.known_hits.append(k)
     seen = set()
     for v in concrete:
         if v["kind"] in seen:          # one replay per kind of failure
